@@ -1,12 +1,14 @@
 """C13 - Applying a tree transform is all-or-nothing on the file system.
 
 Single-fault enumeration on real working trees (bzr 2a dirstate trees and git trees, on
-/dev/shm).  For every edit script (<= 2 edits quick / <= 3 thorough over 22 edits: modify,
-chmod, rename, move, delete file / directory tree, add file / directory, file->dir,
-file->symlink, symlink->file, dir->file, file swap, 3-cycle, directory rename with inner
-rename, parent/child inversion, directory swap, replace) and every command of {revert,
-revert with backups, revert to an older revision, merge, shelve, unshelve} the command is
-run once fault-free with counting wrappers around the file-system primitives referenced by
+/dev/shm, separate signatures).  Scripts over 22 edits (modify, chmod, rename, move, delete
+file / directory tree, add file / directory, file->dir, file->symlink, symlink->file,
+dir->file, file swap, 3-cycle, directory rename with inner rename, parent/child inversion,
+directory swap, replace): quick = every single edit + every pair of 10 core edits,
+thorough = every script of <= 2 edits, plus double faults (second fault in rollback or in
+the limbo clean-up).  For every script and every command of {revert, revert with backups,
+revert to an older revision, merge, shelve, unshelve} the command is run once fault-free
+with counting wrappers around the file-system primitives referenced by
 breezy/transform.py, breezy/bzr/transform.py, breezy/git/transform.py (os.rename, unlink,
 rmdir, mkdir, symlink, link, chmod, utime, stat, lstat, open-for-write, osutils.delete_any,
 rename, chmod_if_possible, lstat, shutil.rmtree; patched as module attributes at run time),
@@ -414,7 +416,11 @@ def two_faults(c, ent, ent2, acc):
         return
     if not is_b:
         detail["vs_before"] = diff_state(st, before)
-        acc.violation("apply:pre-fault-then-%s-fault:%s:not-restored-to-before:%s" % (ent2[0], ent2[1], kind), detail)
+        if only_exec_bits_differ(st, before):
+            # the single-fault defect (in-place chmods are not rolled back) seen through a double fault
+            acc.violation("apply:pre-fault:executable-bit-changes-not-rolled-back:%s" % kind, detail)
+        else:
+            acc.violation("apply:pre-fault-then-%s-fault:%s:not-restored-to-before:%s" % (ent2[0], ent2[1], kind), detail)
 
 
 def fresh_root(work):
